@@ -81,14 +81,8 @@ def run_all(chk, fsets, tier):
                 b = F.one(name="write_bits", trait_is="traits::bits::BitWrite<%s>" % ety, impl_self="impls::buf_bit_writer::BufBitWriter<")
                 okg = False
                 for p in mir.walk(b):
-                    if p.end[0] != "diverge":
-                        continue
-                    for (t, op, v) in p.constraints:
-                        ex = mir.expand(t, p)
-                        if ex[0] == "binop" and ex[1] == "Eq" and op == "==" and v == 0:
-                            s = str(ex)
-                            if "wrapping_sub" in s and "'arg', 2, 'value'" in s and "'arg', 3, 'n_bits'" in s and "BitAnd" in s:
-                                okg = True
+                    if p.end[0] == "diverge" and rn.arg_assert_path(p):
+                        okg = True
                 chk.expect("G2.assert", "%s@%s" % (e, fs), okg, "BufBitWriter<%s>::write_bits has no `value & mask(n_bits) == value` assertion under %s" % (e.upper(), fs))
         # ---- G1
         if "checks" in facts.FEATURE_SETS[fs]:
